@@ -1905,9 +1905,22 @@ package nutsdb
 //@   at call Close: assume err@2 == nil ==> entry != nil && entry.Meta != nil
 //@   at stored es: assert[C03,C04] len(es) > 0 ==> es[len(es) - 1] == entry && hasPrefix(string(entry.Key), string(prefix)) && string(entry.Meta.bucket) == bucket && coff >= offsetNum
 //@ func Tx.findPrefixSearchOnDisk
-//@   assumed on-disk walker: prefix + regexp walk over the leaves of one sealed segment
+//@   requires tx != nil && tx.db != nil
 //@   ensures forall k int :: 0 <= k && k < len(es) ==> es[k] != nil && es[k].Meta != nil
+//@   ensures[C03] limitNum > 0 ==> len(es) <= limitNum
 //@   modifies lastReadOff
+//@   loops 2
+//@   loop 1: modifies lastReadOff
+//@   loop 1: invariant tx == old(tx) && tx.db == old(tx.db) && prefix == old(prefix) && bucket == old(bucket) && fID == old(fID) && limitNum == old(limitNum) && offsetNum == old(offsetNum) && rgx == pre(rgx) && rgx != nil && sinceLoop(es) &&
+//@        numFound == len(es) && (limitNum > 0 ==> numFound <= limitNum) && (limitNum > 0 && numFound == limitNum ==> !scanFlag) && (forall k int :: 0 <= k && k < len(es) ==> es[k] != nil && es[k].Meta != nil)
+//@   loop 2: modifies lastReadOff, elems(es)
+//@   loop 2: invariant tx == old(tx) && tx.db == old(tx.db) && prefix == old(prefix) && bucket == old(bucket) && fID == old(fID) && limitNum == old(limitNum) && offsetNum == old(offsetNum) && rgx == pre(rgx) && rgx != nil && curr == pre(curr) &&
+//@        (arr(es) == arr(pre(es)) || sinceLoop(es)) && numFound == len(es) && (limitNum > 0 ==> numFound < limitNum || (numFound == limitNum && !scanFlag)) &&
+//@        (forall k int :: 0 <= k && k < len(es) ==> es[k] != nil && es[k].Meta != nil)
+//@   at call Close: assume err@2 == nil ==> entry != nil && entry.Meta != nil
+//@   at call Match: assert[C03] concat(string(prefix), string($arg1)) == string(entry.Key)
+//@   at stored es: assert[C03,C04] len(es) > 0 ==> es[len(es) - 1] == entry && hasPrefix(string(entry.Key), string(prefix)) && string(entry.Meta.bucket) == bucket && coff >= offsetNum &&
+//@        (exists r string :: concat(string(prefix), r) == string(entry.Key) && reMatch(rgx, r))
 //@ func SortedEntryKeys
 //@   assumed returns the keys of the map in ascending order together with the map (sort.Strings)
 //@   ensures es == m && (forall k int :: 0 <= k && k < len(keys) ==> has(m, keys[k]))
